@@ -1,9 +1,11 @@
 """C04 on the real transports: every entry point of the expect family driven to EOF and to
-TIMEOUT (virtual clock) on pty / fd (pipe, pty, socket descriptor) / SocketSpawn / PopenSpawn, in
-bytes and unicode mode, with the EOF / TIMEOUT markers absent / listed at several positions, the
-call repeated after EOF (EOF is sticky).  The calls are recorded with harness/recorder.py and
-validated by TLC against ExpectTrace, like the scripted-transport corpus."""
-import itertools, random, re, traceback
+TIMEOUT (virtual clock) on pty / fd (pipe, FIFO, pty, socket descriptor; select and poll) / SocketSpawn /
+PopenSpawn, in bytes and unicode mode, with the EOF / TIMEOUT markers absent / listed at several positions,
+read sizes (maxread) that leave a remainder of the last chunk behind when the stream ends, the call repeated
+after EOF (EOF is sticky).  The calls are recorded with harness/recorder.py and validated by TLC against
+ExpectTrace, like the scripted-transport corpus.  The single-call interleavings of the PtyRead and FdRead
+state graphs are replayed at the expect level (the stream's end is EOF, never TIMEOUT; EOF again afterwards)."""
+import itertools, json, random, re, traceback
 from multiprocessing import Pool
 import pexpect
 from pexpect.exceptions import EOF, TIMEOUT
@@ -13,17 +15,29 @@ from ..world import PtyWorld, FdWorld, SockWorld, PopenWorld, WouldBlock
 
 MAP_B = P.Mapping({'a': 'a', 'b': 'b', 'x': 'x'})
 MAP_U = P.Mapping({'a': 'é', 'b': 'b', 'x': 'x'}, unicode_mode=True)
-TRANSPORTS = ['pty', 'pipe', 'ptyfd', 'sockfd', 'socket', 'popen']
+TRANSPORTS = ['pty', 'pipe', 'fifo', 'ptyfd', 'sockfd', 'socket', 'popen']
+HAS_POLL = ('pty', 'pipe', 'fifo', 'ptyfd', 'sockfd')
+# a long output: a little more than the default maxread (2000) and just under two chunks of PopenSpawn's reader thread
+# (1024 each), so that the first default-sized read takes everything and leaves a remainder of 40 characters behind
+LONG = 2040
 
 
-def make_world(tr, workdir, encoding):
+def make_world(tr, workdir, encoding, use_poll=False):
     if tr == 'pty':
-        return PtyWorld(workdir, encoding=encoding)
-    if tr in ('pipe', 'ptyfd', 'sockfd'):
-        return FdWorld(workdir, kind={'pipe': 'pipe', 'ptyfd': 'pty', 'sockfd': 'sockfd'}[tr], encoding=encoding)
+        return PtyWorld(workdir, encoding=encoding, use_poll=use_poll)
+    if tr in ('pipe', 'fifo', 'ptyfd', 'sockfd'):
+        return FdWorld(workdir, kind={'pipe': 'pipe', 'fifo': 'fifo', 'ptyfd': 'pty', 'sockfd': 'sockfd'}[tr], encoding=encoding,
+                       use_poll=use_poll)
     if tr == 'socket':
         return SockWorld(workdir, encoding=encoding)
     return PopenWorld(workdir, encoding=encoding)
+
+
+def expand(stream):
+    """'L:<n>' stands for n characters 'abab...' (a long output)"""
+    if stream.startswith('L:'):
+        return ('ab' * int(stream[2:]))[:int(stream[2:])]
+    return stream
 
 
 def attach_read_log(child):
@@ -50,17 +64,21 @@ def attach_read_log(child):
 
 
 def run_case(args):
-    workdir, tid, tr, unicode_mode, ending, entry, pats, stream = args
+    workdir, tid, tr, unicode_mode, ending, entry, pats, stream = args[:8]
+    opts = args[8] if len(args) > 8 else {}
     mapping = MAP_U if unicode_mode else MAP_B
     install()
     w = None
-    out = {'id': tid, 'meta': {'transport': tr, 'unicode': unicode_mode, 'ending': ending, 'entry': entry, 'pats': pats, 'stream': stream}}
+    out = {'id': tid, 'meta': {'transport': tr, 'unicode': unicode_mode, 'ending': ending, 'entry': entry, 'pats': pats, 'stream': stream,
+                               'opts': opts}}
     try:
-        w = make_world(tr, workdir, mapping.encoding if unicode_mode else None)
+        w = make_world(tr, workdir, mapping.encoding if unicode_mode else None, use_poll=bool(opts.get('use_poll')))
         child = w.child
+        if opts.get('maxread'):
+            child.maxread = opts['maxread']
         attach_read_log(child)
         rec = Recorder(child, mapping)
-        raw = mapping.raw(stream)
+        raw = mapping.raw(expand(stream))
         data = list(raw)
         w.unit = lambda i: bytes([data[i]]) if i < len(data) else b'?'
         hang = 'PeerExit' if tr == 'pty' else 'PeerClose'
@@ -73,7 +91,7 @@ def run_case(args):
         exact = entry == 'expect_exact'
         rec.annot = {'pats': pats}
         conc = [mapping.concrete(p, exact) for p in pats]
-        for rep in range(2 if ending == 'eof' else 1):
+        for rep in range(opts.get('reps', 2) if ending == 'eof' else 1):
             try:
                 if entry == 'expect':
                     child.expect(conc)
@@ -99,10 +117,10 @@ def run_case(args):
                     rec.emit(e='ret', kind='error', idx=-1, raised=type(e).__name__, before=[], after=[], afterk='None', buffer=[], mi=-1, mk='None', mok=True, tok=True)
                 break
         w.active = False
-        # empty reads of a piped subprocess that has nothing yet are not interesting events
+        # empty reads add nothing: a piped subprocess that has nothing yet; in unicode mode a read that ended inside a character
         ev = []
         for e in rec.events:
-            if e['e'] == 'read' and not e['d'] and tr == 'popen':
+            if e['e'] == 'read' and not e['d'] and (tr == 'popen' or unicode_mode):
                 continue
             ev.append(e)
         out['ev'] = ev
@@ -133,35 +151,58 @@ def corpus(ctx, pool):
                         for stream in ('', 'ab', 'aab'):
                             if ctx.quick() and rng.random() > 0.35:
                                 continue
-                            if ending == 'timeout' and entry in ('read', 'readline') and False:
-                                continue
-                            jobs.append((ctx.work, tid, tr, uni, ending, entry, pl or [], stream))
+                            # select / poll: alternating (the stream's end is a hang-up alone on a pipe / FIFO that holds no data)
+                            opts = {'use_poll': bool(tid % 2)} if tr in HAS_POLL else {}
+                            jobs.append((ctx.work, tid, tr, uni, ending, entry, pl or [], stream, opts))
                             tid += 1
+    nbase = len(jobs)
+    # read sizes that leave a remainder of the last chunk behind when the stream ends (in the kernel; in PopenSpawn's own
+    # carry-over buffer): one write larger than maxread and not a multiple of it, then the end of the stream, then the
+    # call three times - EOF with all of it in `before`, then EOF again with nothing
+    rlists = [[P.lit('x')], [P.lit('x'), P.EOFM], [P.EOFM, P.lit('x'), P.TMOM], [P.TMOM, P.lit('x')]]
+    for tr in TRANSPORTS:
+        for uni in (False, True):
+            for entry in ('expect', 'expect_exact', 'expect_list', 'read', 'readline'):
+                for pl in (rlists if entry.startswith('expect') else [None]):
+                    for stream, maxread in (('aab', 1), ('aab', 2), ('aabab', 2), ('aabab', 3), ('aababab', 3), ('aababab', 5), ('L:%d' % LONG, None)):
+                        if stream.startswith('L:') and (entry == 'expect_list' or (pl is not None and pl is not rlists[1] and pl is not rlists[0])):
+                            continue
+                        if ctx.quick() and rng.random() > (0.6 if stream.startswith('L:') else 0.25):
+                            continue
+                        opts = {'maxread': maxread, 'reps': 3}
+                        if tr in HAS_POLL:
+                            opts['use_poll'] = bool(tid % 2)
+                        jobs.append((ctx.work, tid, tr, uni, 'eof', entry, pl or [], stream, opts))
+                        tid += 1
     outs = pool.map(run_case, jobs, chunksize=4)
+    corpus.counts = (nbase, len(jobs) - nbase)
     return outs
 
 
 # ---------------------------------------------------------------------------------------------
 def replay_expect(args):
-    """one PtyRead schedule (peer actions placed before the k-th reader system call) under expect():
-    expect_exact([never-matching, EOF, TIMEOUT]) for every CallStart of the schedule, then one more call"""
-    workdir, schedule, use_poll = args
+    """one PtyRead / FdRead schedule (peer actions placed before the k-th reader system call) under expect():
+    expect_exact([never-matching, EOF, TIMEOUT]) for every CallStart of the schedule; then the peer goes away (if it
+    has not yet) and the call is made three more times"""
+    workdir, schedule, k = args[:3]
+    transport = args[3] if len(args) > 3 else 'pty'
     w = None
     out = {'calls': [], 'error': None}
     try:
-        w = PtyWorld(workdir, use_poll=use_poll)
+        if transport == 'pty':
+            w = PtyWorld(workdir, use_poll=bool(k))
+        else:
+            from . import transport as TR
+            w = FdWorld(workdir, **TR.fd_variant(k))
         w.schedule = [tuple(x) for x in schedule]
         child = w.child
-        ncalls = 0
-        while True:
-            w.skip_to_call()
-            if w.pos >= len(w.schedule):
-                break
-            size, tmo = w.schedule[w.pos][1]
-            w.pos += 1
+
+        def one_call(size, tmo, tail=False):
             child.maxread = size
             w.active = True
-            rec = {'tmo': tmo, 'written_before': w.written.decode('latin-1')}
+            rec = {'tmo': tmo, 'written_before': w.written.decode('latin-1'), 'peer_open_before': w.peer_open}
+            if tail:
+                rec['tail'] = True
             try:
                 i = child.expect_exact([b'\xff\xfe', pexpect.EOF, pexpect.TIMEOUT], timeout=float(tmo))
                 rec['kind'] = ('match', 'EOF', 'TIMEOUT')[i]
@@ -175,8 +216,26 @@ def replay_expect(args):
             rec['written_at_return'] = w.written.decode('latin-1')
             rec['peer_open'] = w.peer_open
             out['calls'].append(rec)
-            if rec['kind'] in ('BLOCK',) or rec['kind'].startswith('ERR'):
+            return rec
+
+        stopped = False
+        while True:
+            w.skip_to_call()
+            if w.pos >= len(w.schedule):
                 break
+            size, tmo = w.schedule[w.pos][1]
+            w.pos += 1
+            rec = one_call(size, tmo)
+            if rec['kind'] in ('BLOCK',) or rec['kind'].startswith('ERR'):
+                stopped = True
+                break
+        if not stopped:
+            w.end_stream()
+            w.quiet = True
+            for _ in range(3):
+                rec = one_call(2, 0, tail=True)
+                if rec['kind'] in ('BLOCK',) or rec['kind'].startswith('ERR'):
+                    break
         out['written'] = w.written.decode('latin-1')
     except Exception:
         out['error'] = traceback.format_exc()
@@ -189,44 +248,103 @@ def replay_expect(args):
     return out
 
 
+def judge_expect(out):
+    """the C04 clauses on what the calls of one expect-level replay reported -> [(clause, call index)]"""
+    bad = []
+    consumed = ''
+    seen_eof = False
+    for i, c in enumerate(out['calls']):
+        if c['kind'] == 'EOF':
+            total = consumed + c['before']
+            if seen_eof and c['before']:
+                bad.append(('C04:output-delivered-after-eof-was-reported', i))
+            elif not seen_eof and (total != c['written_at_return'] or c['peer_open']):
+                bad.append(('C04:eof-reported-but-before-does-not-hold-all-output', i))
+            consumed = total
+            seen_eof = True
+        elif c['kind'] == 'TIMEOUT':
+            if seen_eof:
+                bad.append(('C04:timeout-after-eof-instead-of-eof-again', i))
+            elif not c['peer_open_before']:
+                # the stream had ended before the call started (the peer had closed / exited): the outcome is EOF - the
+                # readable rest and the end of the stream are both there at once on every transport
+                bad.append(('C04:stream-ended-but-timeout-reported-instead-of-eof', i))
+            # before is all pending text: everything written before the call started must be in it
+            if len(consumed + c['before']) < len(c['written_before']):
+                bad.append(('C04:timeout-before-does-not-hold-all-pending-text', i))
+        elif c['kind'] == 'match':
+            bad.append(('C04:match-reported-for-a-pattern-that-cannot-occur', i))
+        elif c['kind'].startswith('ERR'):
+            bad.append(('C04:other-exception-instead-of-eof-or-timeout', i))
+    return bad
+
+
 def interleaved(ctx, pool):
     from . import transport as TR
-    T = TR.TRANSPORTS['pty']
-    consts = T['consts'](True)
-    res, g = TR.model_graph(ctx, T['module'], 'pty_c04.cfg', consts, T['invs'], 'pty_c04')
-    reader = set().union(*T['kinds'].values())
-    scheds, nstates, npaths = TR.schedules_from_graph(g, 3, reader, T['inter'])
-    rng = random.Random(ctx.seed * 7 + 1)
-    cap = 1500 if ctx.quick() else 20000
-    if len(scheds) > cap:
-        scheds = rng.sample(scheds, cap)
-    jobs = [(ctx.work, s_, bool(k % 2)) for k, (root, s_) in enumerate(scheds)]
-    outs = pool.map(replay_expect, jobs, chunksize=8)
-    for job, out in zip(jobs, outs):
-        if out['error']:
-            from .. import tlc
-            raise tlc.TLCError('expect-level replay crashed: %s\n%s' % (job[1], out['error']))
-        consumed = ''
-        seen_eof = False
-        for i, c in enumerate(out['calls']):
-            case = {'transport': 'pty', 'schedule': job[1], 'use_poll': job[2], 'level': 'expect'}
-            if c['kind'] == 'EOF':
-                total = consumed + c['before']
-                if seen_eof and c['before']:
-                    ctx.fail('C04:output-delivered-after-eof-was-reported', case, detail={'calls': out['calls']}, signature={'transport': 'pty'})
-                elif not seen_eof and (total != c['written_at_return'] or c['peer_open']):
-                    ctx.fail('C04:eof-reported-but-before-does-not-hold-all-output', case,
-                             detail={'calls': out['calls'], 'written': out.get('written')}, signature={'transport': 'pty'})
-                consumed = total
-                seen_eof = True
-            elif c['kind'] == 'TIMEOUT':
-                if seen_eof:
-                    ctx.fail('C04:timeout-after-eof-instead-of-eof-again', case, detail={'calls': out['calls']}, signature={'transport': 'pty'})
-                if not c['written_before'].startswith(consumed + c['before'][:0]) :
-                    pass
-                # before is all pending text: everything written before the call started must be in it
-                if len(consumed + c['before']) < len(c['written_before']):
-                    ctx.fail('C04:timeout-before-does-not-hold-all-pending-text', case, detail={'calls': out['calls']}, signature={'transport': 'pty'})
-            elif c['kind'].startswith('ERR'):
-                ctx.fail('C04:other-exception-instead-of-eof-or-timeout', case, detail={'calls': out['calls']}, signature={'transport': 'pty'})
-    return len(jobs)
+    from .. import tlc
+    total = 0
+    interleaved.per = {}
+    for transport in ('pty', 'fd'):
+        T = TR.TRANSPORTS[transport]
+        consts = T['consts'](True)
+        res, g = TR.model_graph(ctx, T['module'], transport + '_c04.cfg', consts, T['invs'], transport + '_c04')
+        reader = set().union(*T['kinds'].values())
+        scheds, nstates, npaths = TR.schedules_from_graph(g, 3, reader, T['inter'])
+        rng = random.Random(ctx.seed * 7 + 1)
+        cap = (1500 if transport == 'pty' else 2500) if ctx.quick() else 20000
+        if len(scheds) > cap:
+            scheds = rng.sample(scheds, cap)
+        jobs = []
+        for k, (root, s_, _proj) in enumerate(scheds):
+            if transport == 'pty':
+                jobs.append((ctx.work, s_, k % 2, 'pty'))
+            else:
+                # the bytes-mode fd worlds (descriptor kind x select / poll) this schedule can run in
+                vs = [v for v in T['variants_for'](s_) if not TR.fd_variant(v)['encoding']]
+                if ctx.quick() and len(vs) > 4:
+                    o = (k * 3) % len(vs)
+                    vs = (vs[o:] + vs[:o])[::len(vs) // 4][:4]
+                for v in vs:
+                    jobs.append((ctx.work, s_, v, 'fd'))
+        outs = pool.map(replay_expect, jobs, chunksize=8)
+        for job, out in zip(jobs, outs):
+            if out['error']:
+                raise tlc.TLCError('expect-level replay crashed: %s\n%s' % (job[1], out['error']))
+            bad = judge_expect(out)
+            if bad:
+                # a real process / descriptor is involved: a failing case is re-run twice and counts only if it fails every time
+                again = [judge_expect(replay_expect(job)) for _ in range(2)]
+                if not all(again):
+                    continue
+            case = {'transport': transport, 'schedule': job[1], 'k': job[2], 'level': 'expect'}
+            if transport == 'fd':
+                case['world'] = TR.fd_variant(job[2])
+            for clause, i in bad:
+                ctx.fail(clause, case, detail={'calls': out['calls'], 'written': out.get('written'), 'call': i},
+                         signature={'transport': transport})
+        interleaved.per[transport] = len(jobs)
+        total += len(jobs)
+    return total
+
+
+def replay_case(ctx, case):
+    """--replay of a case of this module: re-execute, judge again"""
+    from .. import tracecheck
+    from .expect_family import TRACE_CONSTS
+    if case.get('level') == 'expect':
+        out = replay_expect((ctx.work, case['schedule'], case['k'], case['transport']))
+        print(json.dumps(out, indent=1)[:3000])
+        bad = judge_expect(out)
+        print('failing clauses:', bad)
+        return 1 if bad or out['error'] else 0
+    m = case['real_transport']
+    r = run_case((ctx.work, 'replay', m['transport'], m['unicode'], m['ending'], m['entry'], m['pats'], m['stream'], m.get('opts', {})))
+    if 'error' in r:
+        print(r['error'])
+        return 2
+    v, st = tracecheck.validate([r], 'ExpectTrace', ctx.work, constants=TRACE_CONSTS, procs=1, tag='replay')
+    names = st['all'].get('replay', [v['replay'][0]])
+    print('replay verdict: %s at event %d (all failing clauses: %s)' % (v['replay'][0], v['replay'][1], names))
+    for e in r['ev']:
+        print('   ', json.dumps(e)[:300])
+    return 1 if any(x.startswith('C04:') for x in names) else 0
